@@ -104,3 +104,22 @@ PROPS["C12"] = {
     "level_note": "rendered durations are parsed back with time.ParseDuration; percentages compared to 2 decimals",
     "assumptions": [],
 }
+
+PROPS["C20"] = {
+    "title": "Prometheus metrics equal the sums over observed results",
+    "units": [{"name": "prom", "pkg": "prom", "run": "^TestC20"},
+              {"name": "prom-race", "pkg": "prom", "run": "^TestC20", "race": True, "shards_quick": 1, "shards_thorough": 4}],
+    "rule": "rapid draws histories of 0..400 results (thorough also 2000..1e4) over 1..4 methods x 1..4 URLs x 1..6 status "
+            "codes with error texts from a pool (also on success codes), byte counts < 2^32, latencies exactly on / 1 ns "
+            "around the exported bucket bounds; observed sequentially or by 2..16 goroutines (also under -race). "
+            "Non-trivial = >= 2 label sets and >= 1 failing result; distinct = distinct history.",
+    "explanation": "Oracle: registry.Gather() compared with a model keyed by (method,url,status): counters == exact "
+                   "integer sums, histogram sample_count/sample_sum/cumulative buckets (bounds read from the gathered "
+                   "metric) and request_fail_count per message == number of results with that non-empty error; no series "
+                   "for unobserved label sets.",
+    "technique": "model-based property test over observation histories, sequential and concurrent (rapid, race detector)",
+    "level_text": "generated-history search against a reference aggregation; concurrent observation sampled on the real "
+                  "scheduler with and without the race detector; cannot prove absence",
+    "level_note": "trusts prometheus client_golang's Gather; sample_sum compared with relative tolerance 1e-9",
+    "assumptions": ["label values are valid UTF-8"],
+}
